@@ -210,18 +210,99 @@ func (g *seqGen) readBackAll() {
 	}
 }
 
+// c11Script builds the fixed-shape C11 history: fill several files, supersede most or all of their contents,
+// flush, then run GC rounds and observe the directory.
+func (g *seqGen) c11Script(r *RNG) []Op {
+	hx := hex.EncodeToString
+	var ops []Op
+	ops = append(ops, g.openOp(g.bits, g.ifs, g.pfs), mkOp("view"), mkOp("disk"))
+	val := func() string {
+		b := make([]byte, 6+r.Intn(30))
+		for i := range b {
+			b[i] = byte(r.Intn(256))
+		}
+		return hex.EncodeToString(b)
+	}
+	// phase 1: fill
+	for round := 0; round < 2+r.Intn(2); round++ {
+		for _, k := range g.keys {
+			if r.Bool(80) {
+				ops = append(ops, mkOp("put", "k", hx(k), "v", val()))
+			}
+		}
+		ops = append(ops, mkOp("flush"))
+	}
+	// phase 2: supersede everything (all keys removed or overwritten), or leave one or two live records behind
+	keep := 0
+	if r.Bool(40) {
+		keep = 1 + r.Intn(2)
+	}
+	for i, k := range g.keys {
+		if i < keep {
+			continue
+		}
+		if r.Bool(50) {
+			ops = append(ops, mkOp("rm", "k", hx(k)))
+		} else {
+			ops = append(ops, mkOp("put", "k", hx(k), "v", val()))
+		}
+	}
+	ops = append(ops, mkOp("flush"))
+	// make the files that held the superseded data non-current
+	extra, _ := hex.DecodeString("1208ee01020304050607")
+	ops = append(ops, mkOp("put", "k", hx(extra), "v", val()), mkOp("flush"), mkOp("put", "k", hx(extra), "v", val()), mkOp("flush"))
+	ops = append(ops, mkOp("view"), mkOp("disk"), mkOp("acct"), mkOp("c11mark"))
+	lowuse := []string{"85", "85", "50", "100"}[r.Intn(4)]
+	for round := 0; round < 7; round++ {
+		ops = append(ops, mkOp("c11round", "n", strconv.Itoa(round)))
+		ops = append(ops, mkOp("sizes"), mkOp("pgc", "lowuse", lowuse, "budget", "-1"), mkOp("sizes"), mkOp("flush"), mkOp("view"), mkOp("disk"), mkOp("acct"))
+		ops = append(ops, mkOp("sizes"), mkOp("igc", "scanfree", strconv.Itoa(r.Intn(2)), "budget", "-1"), mkOp("sizes"), mkOp("view"), mkOp("disk"))
+	}
+	ops = append(ops, mkOp("c11end"))
+	for _, k := range g.keys {
+		ops = append(ops, mkOp("get", "k", hx(k)))
+	}
+	ops = append(ops, mkOp("close"), mkOp("disk"))
+	return ops
+}
+
 func (g *seqGen) Next(r *RNG, hist []Op) (Op, bool) {
+	if g.profile == "c11" {
+		if !g.started {
+			g.started = true
+			g.kind = "mh"
+			g.pending = g.c11Script(r)
+		}
+		if len(g.pending) == 0 {
+			return Op{}, false
+		}
+		op := g.pending[0]
+		g.pending = g.pending[1:]
+		return op, true
+	}
 	if !g.started {
 		g.started = true
 		g.isOpen = true
 		g.pending = append(g.pending, mkOp("view"), mkOp("disk"))
 		return g.openOp(g.bits, g.ifs, g.pfs), true
 	}
+	if g.profile == "c13" && len(hist) > 0 {
+		last := hist[len(hist)-1]
+		switch last.Name {
+		case "put", "rm", "flush", "pgc", "igc", "iter":
+			return mkOp("acct"), true
+		case "open":
+			if last.Res == "ok" {
+				return mkOp("acct"), true
+			}
+		}
+	}
 	if len(g.pending) > 0 {
 		op := g.pending[0]
 		g.pending = g.pending[1:]
 		return op, true
 	}
+
 	if len(hist) > 0 {
 		last := hist[len(hist)-1]
 		if len(last.Res) >= 5 && last.Res[:5] == "panic" {
